@@ -25,6 +25,9 @@ use std::collections::BTreeMap;
 pub enum Sym {
     /// start_flashloan(A, end_index)
     Start(u8),
+    /// start_flashloan(A, end_index = 2^8 / 2^16 / 2^32 (by the second field) + the first field): an index far
+    /// outside the transaction whose low bits alias a position inside it (side enumeration only)
+    StartWide(u8, u8),
     /// end with risk accounts for both banks (right after a borrow opened the debt position)
     End,
     /// end with risk accounts for the positions held before the transaction
@@ -147,6 +150,7 @@ pub fn build_ix(sc: &Sc, sym: Sym) -> Ix {
     };
     match sym {
         Sym::Start(k) => ix::start_flashloan(acct, auth, k as u64),
+        Sym::StartWide(k, b) => ix::start_flashloan(acct, auth, [1u64 << 8, 1u64 << 16, 1u64 << 32][b as usize % 3] + k as u64),
         Sym::StartViaCpi(k) => ix::start_flashloan(acct, auth, k as u64).via(proxy()),
         Sym::End => ix::end_flashloan(acct, auth, rem_both.clone()),
         Sym::EndHeld => ix::end_flashloan(acct, auth, w.risk_metas(s, &acct, None, None)),
@@ -246,7 +250,7 @@ pub fn run_shape(sc: &Sc, st: St, list: &[Sym]) -> Out {
     for k in [acct, sc.other, w.users[1].account] {
         let a = world::account(&post, &k);
         let was = world::account(&sc.s, &k).account_flags & ACCOUNT_IN_FLASHLOAN;
-        if a.account_flags & ACCOUNT_IN_FLASHLOAN != 0 && !(st == St::AlreadyInFlashloan && was != 0 && k == acct && !list.iter().any(|s| matches!(s, Sym::Start(_) | Sym::End | Sym::EndHeld))) {
+        if a.account_flags & ACCOUNT_IN_FLASHLOAN != 0 && !(st == St::AlreadyInFlashloan && was != 0 && k == acct && !list.iter().any(|s| matches!(s, Sym::Start(_) | Sym::StartWide(..) | Sym::End | Sym::EndHeld))) {
             viol.push(("marker_never_survives".into(), format!("account {} is flagged in-flash-loan after a committed transaction", world::label_of(&k))));
         }
     }
@@ -268,6 +272,10 @@ pub fn run_shape(sc: &Sc, st: St, list: &[Sym]) -> Out {
                     viol.push(("state_refuses_flashloan".into(), format!("start succeeded on an account in state {:?}", st)));
                 }
                 open = Some(k);
+            }
+            Sym::StartWide(k, b) => {
+                viol.push(("start_names_matching_end".into(), format!("start at position {i} names position 2^{} + {k}, which is outside the transaction", [8, 16, 32][*b as usize % 3])));
+                open = Some(usize::MAX);
             }
             Sym::StartViaCpi(_) | Sym::EndViaCpi => viol.push(("not_via_cpi".into(), format!("{:?} at position {i} succeeded", s))),
             Sym::End | Sym::EndHeld => open = None,
@@ -294,7 +302,7 @@ pub fn run_shape(sc: &Sc, st: St, list: &[Sym]) -> Out {
         viol.retain(|(c, _)| c == "no_nesting");
     }
     let found = viol.into_iter().map(|(c, d)| Found { clause: format!("C11.{c}"), sig: format!("{:?}:{:?}", st, list), detail: format!("{:?} {:?}: {d}", st, list), replay: rep.clone() }).collect();
-    let has_bracket = list.iter().any(|s| matches!(s, Sym::Start(_)));
+    let has_bracket = list.iter().any(|s| matches!(s, Sym::Start(_) | Sym::StartWide(..)));
     Out { class: format!("committed:{}{}", if has_bracket { "with_bracket" } else { "no_bracket" }, if risky { ":risky" } else { "" }), found }
 }
 
@@ -317,6 +325,26 @@ pub fn run(tier: Tier) -> Outcome {
                 if r.class.contains("with_bracket:risky") && samples.len() < 4 && cells % 7 == 0 {
                     samples.push(json!({"state": st, "committed": l}));
                 }
+                if found.len() < 5000 {
+                    found.extend(r.found);
+                }
+            }
+        }
+    }
+    // side enumeration: end indices far outside the transaction whose low 8 / 16 / 32 bits point into it
+    {
+        let mut side: Vec<Sym> = vec![Sym::End, Sym::EndHeld, Sym::BorrowSmall, Sym::RepayAll];
+        for b in 0..3u8 {
+            for k in 0..=3u8 {
+                side.push(Sym::StartWide(k, b));
+            }
+        }
+        let sc = scene(St::Normal);
+        for lists in shape_chunks(&side, 4) {
+            let results: Vec<Out> = lists.par_iter().map(|l| run_shape(&sc, St::Normal, l)).collect();
+            for r in results {
+                cells += 1;
+                *classes.entry(format!("wide_index:{}", r.class)).or_insert(0) += 1;
                 if found.len() < 5000 {
                     found.extend(r.found);
                 }
@@ -351,7 +379,7 @@ pub fn run(tier: Tier) -> Outcome {
         "account_states": states.iter().map(|s| format!("{:?}", s)).collect::<Vec<_>>(),
         "max_length": max_len,
         "exhaustive": true,
-        "rule": "every instruction list of length 1..max over the alphabet (start with every end-index 0..max, four kinds of end, borrow / withdraw within and beyond borrowing power, repay-all, deposit, foreign no-op, liquidate / bankruptcy / start-liquidation of the bracketed account, start / end via CPI) x 7 account states, executed atomically with the real instructions sysvar and signed by the authority, a liquidator and the risk admin; a commit => no account is flagged in-flash-loan; every start that executed names a later top-level end of this program for the same account and is not nested, not on a frozen / disabled / in-receivership account, nothing via CPI; no liquidation, bankruptcy or receivership start executed while the account was flagged; and if anything was borrowed or withdrawn the reference initial health of the account is non-negative",
+        "rule": "every instruction list of length 1..max over the alphabet (start with every end-index 0..max, four kinds of end, borrow / withdraw within and beyond borrowing power, repay-all, deposit, foreign no-op, liquidate / bankruptcy / start-liquidation of the bracketed account, start / end via CPI) x 7 account states, plus every list up to length 4 over {end, borrow, repay-all, start with end-index 2^8 / 2^16 / 2^32 + 0..3} (indices far outside the transaction whose low bits alias a position inside it), executed atomically with the real instructions sysvar and signed by the authority, a liquidator and the risk admin; a commit => no account is flagged in-flash-loan; every start that executed names a later top-level end of this program for the same account and is not nested, not on a frozen / disabled / in-receivership account, nothing via CPI; no liquidation, bankruptcy or receivership start executed while the account was flagged; and if anything was borrowed or withdrawn the reference initial health of the account is non-negative",
         "outcome_classes": classes,
         "samples": samples,
     });
